@@ -4,6 +4,7 @@ import EaselModel.Ssi.Auto
 import EaselModel.Ssi.Robust
 import EaselModel.Ssi.Trunc
 import EaselModel.Ssi.Chains
+import EaselModel.Ssi.Offsets
 /-! # C06 — property theorems (statements + glue only; lemmas live in Ssi/*.lean)
 
 `ns : NewSsi` is the model of the `ESL_NEWSSI` under construction, `ns.WF` says it is what the `esl_newssi_Add*`
@@ -411,6 +412,26 @@ example : exLoop.findName [98] = exLoop.direct [98] ∧ exLoop.link [98] 0 = som
     rw [hb]
     rfl
   exact ⟨(findName_chain_depth exLoop 0 [98] [98] rfl hn (by decide)).1, rfl⟩
+
+/-! ## 63- and 64-bit header offsets: a key section that lies beyond the end of the file -/
+
+/-- Header offsets over the whole 64-bit range: when `poffset` points at or beyond the end of the file — which every value
+    ≥ 2^63 does (a negative `off_t`: `fseeko` refuses it, the model reads beyond the end) — `FindName` of ANY string and
+    `FindNumber` of every valid number answer `eslEFORMAT` (an index with ≥ 1 primary key); with `soffset` beyond the end, so
+    does every probe that is not a primary key. Never a record, never a fault. -/
+theorem offsets_beyond_file (s : Ssi) (hp : 0 < s.plen) :
+    (0 < s.nprimary → s.data.size ≤ s.poffset →
+        (∀ key, s.findName key = .error .eformat) ∧ (∀ i : Nat, i < s.nprimary → s.findNumber (i : Int) = .error .eformat)) ∧
+    (0 < s.nsecondary → 0 < s.slen → s.data.size ≤ s.soffset →
+        ∀ key, bsearch s.data key s.plen s.poffset s.precsize s.nprimary = .error .enotfound →
+          s.findName key = .error .eformat) :=
+  ⟨fun hn hb => ⟨fun key => findName_poffset_beyond s hn hp hb (FUEL - 1) key,
+                 fun i hi => findNumber_poffset_beyond s hp hb i hi⟩,
+   fun hn hl hb key hnp => findName_soffset_beyond s hn hl hb (FUEL - 1) key hnp⟩
+
+/-- non-vacuity: one primary record, `poffset = 2^63` -/
+example : ({ exLoop with nprimary := 1, poffset := 2^63 } : Ssi).findName [97] = .error .eformat :=
+  ((offsets_beyond_file _ (by decide)).1 (by decide) (by decide)).1 [97]
 
 /-! ## `esl_newssi_AddFile` and duplicate names -/
 
